@@ -39,6 +39,17 @@ class JsonDoc:
     def decode(self, *a):
         return self
 
+    def __getattr__(self, k):
+        # anything else done to the document (text-level post-processing of the JSON) is outside the tree model
+        if k.startswith("__"):
+            raise AttributeError(k)
+        raise Unsupported("the JSON document is post-processed as text (.%s): outside the contract model of orjson" % k)
+
+    def __add__(self, o):
+        if o == "\n":
+            return self
+        raise Unsupported("the JSON document is post-processed as text (+)")
+
 
 class IsoText:
     def __init__(self, what):
@@ -437,6 +448,71 @@ def _worker(idxs):
     return dict(violations=rep.violations, inconclusive=rep.inconclusive, errors=rep.harness_errors, samples=rep.samples, stats=explorer.STATS, nd=nd, counts=rep.counts)
 
 
+TEXTS = ["plain ascii", "w\u00f3rld \u00e9t\u00e9", "\u65e5\u672c\u8a9e \u91ce\u4e38", "\U00020bb7\u91ce", "ok \U0001f600!", "\u0394\u03b5\u03bb\u03c4\u03b1 \u2603"]
+
+
+def strings_check(rep, N):
+    """(S) text fields with non-ASCII content (Latin-1, CJK, Greek, characters outside the Basic Multilingual Plane): the
+    JSON text is valid JSON and parses back to the same value and raw value.  Concrete messages on the plain code: the
+    symbolic runs treat decoded text as an opaque value, so the characters themselves are exercised here."""
+    D = db()
+    n = 0
+    # fixed strings: the first three definitions whose only non-numeric field is one STRING_FIX of >= 16 bytes
+    fixed = [p for p in D.pgns if [f.type for f in p.fields].count("STRING_FIX") >= 1 and all(f.fixed for f in p.fields)
+             and all(f.type in SUPPORTED for f in p.fields) and max(f.len for f in p.fields if f.type == "STRING_FIX") >= 128][:8]
+    cases = []
+    for p in fixed:
+        f = max((g for g in p.fields if g.type == "STRING_FIX"), key=lambda g: g.len)
+        from .wire import match_payload
+        base = int.from_bytes(match_payload(p), "little")
+        for t in TEXTS:
+            b = t.encode("utf-8")[:f.len // 8]
+            while True:
+                try:
+                    b.decode("utf-8")
+                    break
+                except UnicodeDecodeError:
+                    b = b[:-1]
+            pl = (base & ~(((1 << f.len) - 1) << f.off)) | (int.from_bytes(b + b"\x00" * (f.len // 8 - len(b)), "little") << f.off)
+            cases.append((p, pl, f.id))
+    # variable strings (STRING_LAU, both wire encodings): PGN 126998 configuration information
+    p998 = [q for q in D.pgns if q.pgn == 126998]
+    if p998:
+        for t in TEXTS:
+            for ctrl, enc in ((1, "utf-8"), (0, "utf-16-le")):
+                body = b""
+                for txt in (t, "x", ""):
+                    e = txt.encode(enc)
+                    body += bytes([len(e) + 2, ctrl]) + e
+                cases.append((p998[0], int.from_bytes(body, "little"), None))
+    for p, pl, fid in cases:
+        fn = N.pgns.__dict__["decode_pgn_%s" % D.func_suffix(p)]
+        try:
+            m = fn(pl)
+        except Exception:
+            continue
+        m.add_data(1, 2, 3, datetime(2020, 1, 1), None, False, b"")
+        n += 1
+        bad = None
+        try:
+            doc = m.to_json()
+            json.loads(doc)
+            m2 = N.message.NMEA2000Message.from_json(doc)
+            for a_, b_ in zip(m.fields, m2.fields):
+                if isinstance(a_.value, str) and (a_.value != b_.value or (isinstance(a_.raw_value, str) and a_.raw_value != b_.raw_value)):
+                    bad = "field %s: text %r parses back as %r" % (a_.id, a_.value, b_.value)
+        except Exception as e:
+            bad = "to_json / from_json raised %r" % (e,)
+        if bad:
+            if rep is None:
+                return True, "%s payload %#x: %s" % (p.id, pl, bad)
+            rep.violation({"kind": "json-text", "def": p.id}, "%s: %s" % (p.id, bad), {"kind": "strings"})
+            break
+    if rep is None:
+        return False, "%d messages with non-ASCII text round-trip" % n
+    rep.count("messages_with_non_ascii_text", n)
+
+
 DUMP_ENTRIES = [127250, 127506, 65280, 126992, "vesselHeading", "vesselheading", "VESSELHEADING", "dcDetailedStatus", "furunoHeave", "noSuchId"]
 
 
@@ -510,6 +586,7 @@ def run(tier, seed):
     rep.count("definitions", sum(p["nd"] for p in parts if p and "nd" in p))
     from .plain import plain
     dump_check(rep, plain(), tier)
+    strings_check(rep, plain())
     rep.coverage.update(explanation="bounded symbolic verification: to_json/from_json/encoders executed symbolically around a validated orjson contract model for %d definitions "
                                     "(all accepted payloads); dump filters enumerated" % len(defs))
     rep.assumptions = ["orjson behaves as its documented contract (J)", "the decoder accepted the payload"]
@@ -520,6 +597,8 @@ def replay(r):
     from .plain import plain
     N = plain()
     D = db()
+    if r["kind"] == "strings":
+        return strings_check(None, N)
     if r["kind"] == "dump":
         dec = None
         ok, detail = dump_check(None, N, "quick")
